@@ -87,7 +87,7 @@ func e3C03Config(rng *mrand.Rand, quick bool, i int) e3Config {
 		cfg.Attack = true
 		cfg.AttackKind = rng.IntN(4)
 	}
-	// every eighth run each is given to one of the directed attacks, whatever was drawn
+	// six of every eight runs are given to the directed attacks, whatever was drawn
 	switch i % 8 {
 	case 5:
 		cfg.WantByz, cfg.Attack, cfg.AttackKind = true, true, 1
@@ -97,7 +97,7 @@ func e3C03Config(rng *mrand.Rand, quick bool, i int) e3Config {
 		cfg.WantByz, cfg.Attack, cfg.AttackKind = true, true, 0
 	case 2:
 		cfg.WantByz, cfg.Rotate, cfg.Attack, cfg.AttackKind = true, true, true, 2
-	case 3:
+	case 3, 4:
 		cfg.WantByz, cfg.Attack, cfg.AttackKind = true, true, 3
 	}
 	if f := os.Getenv("VERIF_E3_FORCE"); f != "" {
@@ -152,7 +152,7 @@ func TestVerif_C03(t *testing.T) {
 	defer r.Finish()
 	r.SetRule("E3: N in {4,5,7} full engines from tmengine.New in one process (mem stores, ed25519 fixture keys, six power distributions, optional per-height validator rotation by the echo driver), ChattyStrategy on a harness broadcaster feeding a seeded adversarial router (fair / heavy reorder / duplicate-happy / lossy with retransmission / rolling partitions that heal), virtual round timers fired only by the router's PRNG (never early / aggressively early / mixed), a lock-respecting Tendermint strategy, a Byzantine injector signing anything (proposal and vote equivocation, unknown hashes, selective support, different messages to different nodes) with keys holding < 1/3 of the power, clean restarts of up to floor((N-1)/3) correct nodes on the same stores, hook-caught panics as fail-stop crashes followed by restart. Oracle (after every router step that produced a finalization and at the end, over the drivers' FinalizeBlockRequest logs and the CommittedHeaderStores of the correct nodes): one block hash per height; per node heights contiguous increasing from the initial height (a repeat of the last height with the same hash as first request after a restart allowed). Premise monitor: every vote a correct node really signed (crypto/ed25519 under its own key, taken from the gossip of all nodes) must equal the decision its strategy memoized for that height and round. In a third of the runs with Byzantine validators the random injector is replaced by a directed split attack (selective precommits to one victim whose own precommits are delayed, then support for any other block towards the rest). Non-trivial = distinct (configuration, finalization log) digests of runs in which >= 1 height was finalized by >= 2 correct nodes while >= 1 fault class (reorder, duplication, loss, partition, byzantine, restart, crash, early timer) was active.")
 
-	nCases := r.N(48, 600)
+	nCases := r.N(64, 600)
 	if strings.HasSuffix(r.Sub, "race") {
 		nCases = nCases / 10
 		if nCases < 3 {
